@@ -127,6 +127,49 @@ func vRunStallLayer1(c *vCase) bool {
 			c.Cov("l1_stalls", 1)
 		case k < 18:
 			g.set(true)
+		case k == 19:
+			// a Flush is stalled at the disk; records are accepted meanwhile; the disk recovers; the NEXT Flush must bring them out
+			p0 := vPayload(id, 24)
+			id++
+			if _, err := aw.Write(p0); err != nil {
+				rejected++
+				continue
+			}
+			accepted.Write(p0)
+			naccepted++
+			g.set(false)
+			done := make(chan struct{})
+			go func() { aw.Flush(); close(done) }()
+			for i := 0; i < 400; i++ { // wait until the flush is really waiting at the gate
+				if _, w := g.snapshot(); w {
+					break
+				}
+				time.Sleep(50 * time.Microsecond)
+			}
+			for j := 0; j < 1+r.Intn(3); j++ {
+				p := vPayload(id, vPick(r, 8, 24, 200))
+				id++
+				if _, err := aw.Write(p); err == nil {
+					accepted.Write(p)
+					naccepted++
+				} else {
+					rejected++
+				}
+			}
+			g.set(true)
+			select {
+			case <-done:
+			case <-time.After(20 * time.Second):
+				c.Inconclusive("slow:c07", "stalled Flush did not return within 20 s after the gate opened")
+				return false
+			}
+			if !vWatched(c, "asyncbufio.Flush", 20*time.Second, func() { aw.Flush() }) {
+				return false
+			}
+			if !checkAll("Flush-after-stalled-Flush") {
+				return false
+			}
+			c.Cov("l1_flush_after_stalled_flush", 1)
 		default:
 			_, waiting := g.snapshot()
 			g.mu.Lock()
@@ -136,7 +179,8 @@ func vRunStallLayer1(c *vCase) bool {
 				if waiting {
 					flushStalled++
 				}
-				go func() { time.Sleep(time.Duration(200+r.Intn(2000)) * time.Microsecond); g.set(true) }()
+				d := time.Duration(200+r.Intn(2000)) * time.Microsecond
+				go func() { time.Sleep(d); g.set(true) }()
 			}
 			if !vWatched(c, "asyncbufio.Flush", 20*time.Second, func() { aw.Flush() }) {
 				g.set(true)
@@ -515,7 +559,7 @@ func init() {
 			Rule: "3 of 4 cases: asyncbufio.Writer (queue depth 1..64 and the real 1000, flush interval 200us..1h) over a gated in-memory writer that blocks on command; producer issues 30-3000 writes of 1..9000-byte payloads with unique ids, random flushes (also while the gate is closed) and a final close. 1 of 4 cases: a real LJH2.2 / LJH3 / OFF writer whose file is a 4 KiB named pipe that the harness does not drain until the scripted moment (never stalled / from the header / after some records; released at the first rejection / after several / partly full), with record sizes 24..1016 bytes so the first rejection lands on different part indices; fault = the stall point; oracle = bytes at the sink are exactly the accepted payloads/records in order, whole records only, and complete when Flush/Close return",
 			Assumptions: []string{"Linux named-pipe semantics stand in for a stalling disk", "callers do not modify a buffer after handing it to Write (the record writers do not)"},
 			Guards: map[string]map[string]int{
-				"quick":    {"l1_cases_with_rejection": 40, "l1_flush_while_stalled": 20, "l1_flushes": 500, "l2_cases_with_rejection": 30, "l2_ljh22": 10, "l2_ljh3": 10, "l2_off": 10, "l2_rejected": 500},
+				"quick":    {"l1_cases_with_rejection": 40, "l1_flush_while_stalled": 20, "l1_flush_after_stalled_flush": 100, "l1_flushes": 500, "l2_cases_with_rejection": 30, "l2_ljh22": 10, "l2_ljh3": 10, "l2_off": 10, "l2_rejected": 500},
 				"thorough": {"l1_cases_with_rejection": 800, "l1_flush_while_stalled": 400, "l2_cases_with_rejection": 600, "l2_ljh22": 200, "l2_ljh3": 200, "l2_off": 200},
 			}},
 	})
